@@ -159,6 +159,12 @@ extern crate alloc;
 mod collections;
 mod utils;
 
+// Verification hook (guard: cfg(kani), set only by cargo-kani): compiles the Kani harnesses kept in /verif
+// inside the crate so that they can reach pub(crate) internals.  No effect on normal builds.
+#[cfg(kani)]
+#[path = "/verif/kani/in_crate.rs"]
+mod verif_kani;
+
 #[doc(hidden)]
 pub use utils::private;
 
